@@ -34,4 +34,29 @@ CLAIMS = {
         text='For the whole package on every run: every where= ufunc has an out= buffer initialised on all reaching definitions; every np.empty buffer is fully written before any read on every path; kernels store before accumulating and prange iterations own disjoint cells; no public routine of the anchored modules (plus clustering/MSM entry points) can store into storage reachable from an argument unless documented in place (alias/effects summaries to a fixed point); no anchored routine writes module state. These are all-paths facts, hence hold for every call history, heap state and thread count.',
         note='Not decided: uninitialised reads/mutation inside third-party calls (trusted to documented contracts), BLAS bit-reproducibility, routines random by contract. Known finding F19 (reassign re-centres caller trajectories) is reported as KNOWN-FINDING. ' + _TB,
         ref='DESIGN.md 5 C19'),
+    'C03': dict(
+        technique='ast slice-algebra rule (frozen lemma for a[:-L:s] / a[L::s]), def-use provenance of the COO coordinates, dominance of the lag guard',
+        text='Decides that both branches of the pair builder instantiate the lag-shift slice lemma (same array, L = lag_time, step 1 resp. lag_time), that lag_time < 1 raises before any pair is formed, that from-states are row 0 / to-states row 1 of coordinates handed unsliced to a square coo_matrix, that pairs are built per -1-filtered trajectory row and never thinned after concatenation, unit weights, and that the inferred state count comes from all assigned frames.',
+        note='Not decided: additivity / permutation invariance / ragged-vs-padded equality as values (consequences, not re-derived); duplicate summation is trusted to scipy COO. ' + _TB,
+        ref='DESIGN.md 5 C03'),
+    'C04': dict(
+        technique='ast def-use (prior counts first), alias/effects incl. scipy views, sibling-branch agreement dense/sparse row scaling, mask-pairing rule, container lints, spectrum ordering rule',
+        text='Decides that every builder adds prior counts first and later uses see that definition, that no store reaches the caller\'s matrix, that rows (not columns) are scaled by reciprocal row sums in both the dense and the sparse branch with the reciprocal taken only under weights > 0 into a zeroed vector, that transpose derives populations from the very matrix it normalises, that sparse input is densified to ndarray and outputs re-wrapped, and that the stationary vector is the sum-normalised leading left eigenvector under a descending-real-part order applied to values and columns alike.',
+        note='Not decided: stochasticity, stationarity and detailed balance as numerical identities; equality of numbers across container types. ' + _TB,
+        ref='DESIGN.md 5 C04'),
+    'C11': dict(
+        technique='ast API-contract lint (connection="strong"), def-use provenance of component weights, orientation agreement table for TrimMapping producers/consumers/writer/reader, paired-store rule for the in-place variant, alias/effects',
+        text='Decides strong (directed) connectivity on a thresholded copy, component weight from ROW sums of the original counts selected by argmax, kept states from np.where (order preserving) used on both axes, (original, trimmed) orientation agreed by every producer, the CSV writer/reader and __init__, rows AND columns zeroed in the in-place variant, (mapping, counts) return order at every unpacking site, container type restored, and the caller\'s matrix untouched.',
+        note='Not decided: that scipy\'s connected_components returns the strongly connected components (trusted); equality of dense/sparse numbers. ' + _TB,
+        ref='DESIGN.md 5 C11'),
+    'C12': dict(
+        technique='statement-by-statement sibling agreement of the ast (py) and Cython-parser (pyx) trees after canonicalisation; sympy expansion against the reference Prinz equations; float-equality-assert and warnings.warn lints; satisfiability of the cap test under range semantics',
+        text='Decides that no result-path assertion tests exact floating equality, that the non-convergence warning is well formed and its cap test satisfiable after loop exhaustion, that the Python and Cython estimators agree statement by statement, that the diagonal update, a, b, c, the root and both row-sum updates equal the reference Prinz equations (sympy-canonicalised), that log terms are guarded by the positivity of their own argument, that the loop is bounded and the result is X/rowsum(X), rowsum/total.',
+        note='Not decided: optimality against every reversible competitor; the `assert c <= 0` rounding question; numerical agreement of the two implementations. sympy is used only to expand/cancel closed forms. ' + _TB,
+        ref='DESIGN.md 5 C12'),
+    'C16': dict(
+        technique='ast store/forward agreement for constructor parameters, CFG order of the fit pipeline, writer/reader agreement table, spectrum ordering rule, formula-shape match for timescales, left-multiplication rule',
+        text='Decides that each constructor parameter is stored unmodified and forwarded by fit to the parameter of the same meaning, that fit runs counts -> optional trim -> builder on one data flow and stores (C, T, pi) in order, that save and load agree on keys, writer/reader pairs, mapping orientation, >= 17 digits for probabilities and a config covering every constructor parameter, the spectrum rules (descending real part, one permutation, column-0 normalisation, which="LR"), timescales -lag/log(lambda[1:]) with one extra eigenvalue, and rmatvec propagation n_steps-1 times from a copy.',
+        note='Not decided: numerical equality of estimator and function pipeline; precision actually surviving Matrix-Market text beyond the digit count. ' + _TB,
+        ref='DESIGN.md 5 C16'),
 }
